@@ -24,7 +24,7 @@ RULE = ("Hypothesis-generated process chains of depth 1..12 built by the harness
         ">= 2, or self-only match, or a name with ')'/'('/space, or a prefix/extension near miss; distinct by (depth, match "
         "position, name class)")
 
-NAMECH = b"abcdefghijklmnopqrstuvwxyzABCDEFGHIJKLMNOPQRSTUVWXYZ0123456789 ()-._"
+NAMECH = b"abcdefghijklmnopqrstuvwxyzABCDEFGHIJKLMNOPQRSTUVWXYZ0123456789 ()-._#:=\"'"
 try:
     PID1 = open("/proc/1/comm", "rb").read().rstrip(b"\n") or b"init"      # the top of every chain: listed in a share of the cases
 except OSError:
@@ -34,7 +34,7 @@ except OSError:
 def strategy():
     name = st.one_of(gen.bytes_nonul(1, 15, alphabet=NAMECH, boundaries=(1, 14, 15)),
                      st.sampled_from([b"sshd", b"my (app)", b"a)", b"(", b") (", b"x y", b"worker", b"work", b"123456789012345",
-                                      b"12345678901234", b" lead", b"trail ", b"cron"]))
+                                      b"12345678901234", b" lead", b"trail ", b"cron", b"job #1", b"job", b"x=y", b"q\"uote"]))
 
     @st.composite
     def case(draw):
@@ -66,6 +66,8 @@ def strategy():
             newname = draw(st.one_of(st.sampled_from([i for i in items if i and len(i) <= 15] or [b"zz"]), st.sampled_from(chain), name))
             steps.append((dist, newname or b"renamed"))
         return {"chain": chain, "leaf": leaf, "items": items, "steps": steps, "stdin": draw(st.sampled_from([None, None, None, "closed", "null"])),
+                # the whole chain lives in a pid namespace of its own with 7-digit pids (pid, name and parent pid fill the stat line to its maximum)
+                "bigpid": draw(st.sampled_from([0, 0, 0, 0, 1000000, 4000000, 4194200])),
                 "pre_errno": [draw(st.sampled_from([0, 0, 0, 34, 34, 4, 22])) for _ in range(len(steps) + 1)]}
     return case()
 
@@ -85,7 +87,8 @@ def evaluate(env, c):
     pre = c.get("pre_errno", [0] * (len(steps) + 1))
     one = lambda k: [drv.op("Q"), drv.op("e", pre[k]), drv.op_exec("e", b"/bin/x", [b"x"], [], ret=-1, err=2), drv.op("G")]
     ops = [drv.op("x", out + "/log"), drv.op("W", "log", out + "/log"), drv.op("C", ini)] + \
-          ([drv.op("S", 0, c["stdin"])] if c.get("stdin") else []) + [drv.op("F", *c["chain"]), drv.op("N", c["leaf"])] + one(0)
+          ([drv.op("S", 0, c["stdin"])] if c.get("stdin") else []) + ([drv.op("g", c["bigpid"])] if c.get("bigpid") else []) + \
+          [drv.op("F", *c["chain"]), drv.op("N", c["leaf"])] + one(0)
     for k, (dist, newname) in enumerate(steps):
         ops += [drv.op("a", dist, newname)] + one(k + 1)
     res = d.scenario(ops)
@@ -141,7 +144,7 @@ def classify(c):
             if any(a in names for a in cur if a) != v0:
                 flips = True
     for flag, n in ((selfonly, "self-only"), (special, "special-chars"), (near, "prefix-near-miss"), (b"" in chain, "empty-named-ancestor"),
-                    (PID1 in items, "pid-1-listed"), (bool(c.get("stdin")), "stdin:" + str(c.get("stdin"))),
+                    (PID1 in items, "pid-1-listed"), (bool(c.get("bigpid")), "pids:7-digits(own pid namespace)"), (bool(c.get("stdin")), "stdin:" + str(c.get("stdin"))),
                     (bool(st_), "history:ancestor-renamed-between-calls"), (flips, "history:verdict-changes"), (any(c.get("pre_errno", [])), "caller-errno-set")):
         if flag:
             cls.append(n)
@@ -209,7 +212,7 @@ def unreadable_tree_phase(ctx):
 def main():
     ctx = Ctx(PID, "exploration", RULE)
     b = ctx.run.build("ts-asan")
-    ctx.assumptions = ["names never contain ',' (list separator) and lists stay within one 1022-byte config line",
+    ctx.assumptions = ["names never contain ',' (list separator) or ';' (chain separator) and lists stay within one 1022-byte config line",
                        "harness processes above the generated chain (execdrv, sh/unshare, python) are part of the observed ancestor list",
                        "an ancestor with an empty kernel name counts as 'tree cannot be read' from that point upwards"]
     nw, per = (4, 300) if ctx.quick else (16, 2500)
